@@ -885,7 +885,13 @@ func runCheck(mode string, args []string) {
 		if r.Outcome == "PANIC" {
 			nPanicWit++
 		}
-		if r.HasModel && (r.Outcome == "OK" || (r.Outcome == "PANIC" && nPanicWit <= 40 && !r.Concurrent)) && nw < witLimit && !strings.Contains(entry, "NoReplay") {
+		schedDependent := false
+		for _, ce := range r.CEs {
+			if len(ce.Pauses) > 0 {
+				schedDependent = true // predicted failure needs the preemptions: confirmed through the counterexample, not as a witness
+			}
+		}
+		if r.HasModel && !schedDependent && (r.Outcome == "OK" || (r.Outcome == "PANIC" && nPanicWit <= 40 && !r.Concurrent)) && nw < witLimit && !strings.Contains(entry, "NoReplay") {
 			rep := 1
 			if r.Orders {
 				rep = 6
@@ -984,6 +990,8 @@ func runCheck(mode string, args []string) {
 					}
 				} else if why, ok := confirmCE(p.ce, o); ok {
 					confirmed[p.ce] = why
+				} else if why2, ok2, err2 := confirmBySchedule(targets[tn], ov, p.ce, p.vec); len(p.ce.Pauses) > 0 && err2 == nil && ok2 {
+					confirmed[p.ce] = why2
 				} else {
 					spurious++
 					fmt.Printf("  WARNING: counterexample not reproduced natively (spurious, engine or stub imprecision): %s %s %s inputs=%v native=%s\n", p.ce.Entry, p.ce.Kind, p.ce.ID, p.ce.Inputs, trunc(why, 300))
@@ -1478,6 +1486,13 @@ func confirmBySchedule(tp targetPkg, ov map[string][]byte, ce *CounterExample, v
 			return "native run with pauses dies: " + lastLines(tail, 6), true, nil
 		}
 		return "native run failed: " + lastLines(tail, 6), false, nil
+	}
+	if ce.Kind != "deadlock" && ce.Kind != "leak" {
+		if len(outs) == 1 {
+			why, ok := confirmCE(ce, &outs[0])
+			return "with pauses at the preemption points: " + why, ok, nil
+		}
+		return "native run with pauses produced no outcome", false, nil
 	}
 	if len(outs) == 1 && outs[0].Panic != "" {
 		return "native run with pauses panics: " + outs[0].Panic, true, nil
